@@ -1502,13 +1502,55 @@ func c02ObserverCompaction(c *Ctx, g *gossipAnchors, rule string) {
 				if !ok {
 					bad = "the compaction version is not parsed from the received entry's value"
 				} else {
-					isE := func(v ssa.Value) bool { b, ok := loadedField(v, g.eKey); return ok && strip(b) == strip(eb) }
 					isCompact := func(v ssa.Value) bool { s, ok := constString(v); return ok && s == g.compactKey }
-					keyOK := anyFact(facts, func(f Fact) bool { return cmpFact(f, token.EQL, isE, isCompact) })
-					internal := anyFact(facts, func(f Fact) bool {
-						b, ok := loadedField(f.V, g.eInternal)
-						return ok && f.T && strip(b) == strip(eb)
-					})
+					entryFacts := func(base ssa.Value, facts []Fact) bool {
+						isE := func(v ssa.Value) bool { b, ok := loadedField(v, g.eKey); return ok && strip(b) == strip(base) }
+						keyOK := anyFact(facts, func(f Fact) bool { return cmpFact(f, token.EQL, isE, isCompact) })
+						internal := anyFact(facts, func(f Fact) bool {
+							b, ok := loadedField(f.V, g.eInternal)
+							return ok && f.T && strip(b) == strip(base)
+						})
+						return keyOK && internal
+					}
+					marked := entryFacts(eb, facts)
+					if !marked {
+						// the entry is a parameter of an unexported helper: the facts may hold at every call site instead
+						if al, ok := strip(eb).(*ssa.Alloc); ok {
+							if sv, _ := singleStore(al); sv != nil {
+								if pv, ok := sv.(*ssa.Parameter); ok && fn.Object() != nil && !fn.Object().Exported() {
+									idx := -1
+									for k, pp := range fn.Params {
+										if pp == pv {
+											idx = k
+										}
+									}
+									sites := 0
+									all := true
+									for _, e := range p.callersOf(fn) {
+										cf := e.Caller.Func
+										if cf == nil || isTestFile(p.Fset, cf.Pos()) || e.Site == nil {
+											continue
+										}
+										args := e.Site.Common().Args
+										if idx < 0 || idx >= len(args) {
+											all = false
+											continue
+										}
+										sites++
+										arg := strip(args[idx])
+										var base ssa.Value
+										if u, ok := arg.(*ssa.UnOp); ok && u.Op == token.MUL {
+											base = u.X
+										}
+										if base == nil || !entryFacts(base, computeFacts(cf).At(e.Site.Block())) {
+											all = false
+										}
+									}
+									marked = sites > 0 && all
+								}
+							}
+						}
+					}
 					parsed := anyFact(facts, func(f Fact) bool {
 						return cmpFact(f, token.EQL, func(v ssa.Value) bool {
 							ex, ok := strip(v).(*ssa.Extract)
@@ -1516,7 +1558,7 @@ func c02ObserverCompaction(c *Ctx, g *gossipAnchors, rule string) {
 						}, isNilConst)
 					})
 					switch {
-					case !keyOK || !internal:
+					case !marked:
 						bad = "not under `e.Internal && e.Key == compactKey` of the received entry"
 					case !parsed:
 						bad = "not under a successful parse of the compaction version"
